@@ -22,6 +22,8 @@ Q_All == {ChargeTok(1), ChargeTok(-1), ChargeTok(2), ChargeTok(-2), ChargeTok(3)
           ChargeTokZero("+"), ChargeTokZero("-")}
 \* every decimal digit in every numeric position the renderers translate through a digit table (sub- and superscripts)
 C_Digits == {NoCount, IntCount(3), IntCount(4), IntCount(56), IntCount(78), IntCount(90), DecCount(6, 75, 2), DecCount(9, 8, 1)}
+\* decimals a hair away from an integer (four decimals): the written amount is exact, never rounded to the integer
+C_Near == {NoCount, IntCount(2), DecCount(0, 9995, 4), DecCount(2, 4, 4), DecCount(1, 1, 4)}
 Q_Digits == {ChargeTok(4), ChargeTok(-5), ChargeTok(6), ChargeTok(-7), ChargeTok(8), ChargeTok(-9), ChargeTok(18),
              ChargeTok(-29), ChargeTok(30), ChargeTok(-13), ChargeTokOne(1)}
 P_All == AllPrefixes
